@@ -198,3 +198,39 @@ def retain_state_on_a_parent_restores_every_descendant(a0: int, a1: int, a2: int
     assert implies(not keepT, defs[0].assigned == f0) and implies(not keepP, defs[1].assigned == f1), "definition flags of non-kept definitions as at entry"
     assert defs[0]._backup is None and defs[1]._backup is None and defs[2]._backup is None
     assert defs[2].assigned == 0
+
+
+# ---------------------------------------------------------------------------------------------- the grid of a composite
+import numpy as np
+
+HexGrid = repo("armi.reactor.grids.hexagonal:HexGrid")
+IndexLocation = repo("armi.reactor.grids.locations:IndexLocation")
+
+
+def mk_grid(pitch, prior):
+    us = HexGrid._getRawUnitSteps(pitch, False)
+    return new(HexGrid, _unitSteps=np.array(us), _bounds=(None, None, None), _stepDims=((0, 1, 2),), _boundDims=((),),
+               _offset=np.array((0.0, 0.0, 0.0)), _unitStepLimits=((-3, 3), (-3, 3), (0, 1)), _backup=prior, _locations={}, armiObject=None)
+
+
+@lemma(gen={"p1": (0.1, 30.0), "p2": (0.1, 30.0), "a0": (0, 63)})
+def retain_state_restores_the_grid_pitch_of_a_composite(p1: float, p2: float, a0: int, t0: float, t1: float, keepT: bool):
+    """a composite owning a hexagonal grid that holds (at least) one location object: the pitch changed inside a
+    retainState scope is back afterwards, together with the parameters; an earlier grid back-up stays in place.
+    (A grid WITHOUT any location object: see contracts/pending/C16_grid_finding.py.)"""
+    assume(p1 > 0 and p2 > 0)
+    defs = mk_class(0, 0, 0)
+    c = mk_node("c", mk_coll(None, a0, t0, 1.0, 1.0), False)
+    # an earlier grid back-up (of an enclosing scope, taken at pitch 2*p1): must be in place again afterwards
+    prior = (np.array(HexGrid._getRawUnitSteps(2.0 * p1, False)), (None, None, None), np.array((0.0, 0.0, 0.0)), None)
+    g = mk_grid(p1, prior)
+    g.armiObject = c
+    g._locations[(0, 0, 0)] = IndexLocation(0, 0, 0, g)
+    c.spatialGrid = g
+    with c.retainState([defs[0]] if keepT else []):
+        g.changePitch(p2)
+        defs[0].__set__(c.p, t1)
+        assert eq(g.pitch, p2)
+    assert eq(g.pitch, p1), "grid pitch as at entry"
+    assert same(g._backup, prior), "the earlier grid back-up is in place again"
+    assert c.p._p_temperatureInC == (t1 if keepT else t0)
